@@ -36,6 +36,8 @@ const (
 	c31MinExec   = 100                // an opcode counts as covered when executed successfully this many times
 )
 
+var c31Debug = os.Getenv("VERIF_C31_DEBUG") != ""
+
 var c31Mu sync.Mutex // guards the generator caches when a worker runs more than one goroutine
 
 type c31Case struct {
@@ -46,6 +48,19 @@ type c31Case struct {
 	Program string   `json:"program_hex"`
 	Callees []string `json:"callee_programs_hex,omitempty"`
 	NArgs   int      `json:"args"`
+	Lens    []int    `json:"lens,omitempty"`
+
+	prog    []byte
+	callees [][]byte
+}
+
+// hexify fills the printable program fields (only needed when a case is reported)
+func (cs *c31Case) hexify() {
+	cs.Program = hex.EncodeToString(cs.prog)
+	cs.Callees = nil
+	for _, cp := range cs.callees {
+		cs.Callees = append(cs.Callees, hex.EncodeToString(cp))
+	}
 }
 
 func c31VersionPick(r *kit.Rand) uint64 {
@@ -96,16 +111,31 @@ func c31OneCase(st *c31Stats, seed uint64, i uint64, before func(*c31Case)) (cs 
 	}
 	var prog []byte
 	var v uint64
-	class := []string{"random", "mutation", "structured"}[r.Pick([]int{25, 30, 45})]
+	class := []string{"random", "mutation", "structured", "corpus"}[r.Pick([]int{24, 29, 43, 4})]
 	switch class {
 	case "random":
 		prog, v = c31GenRandom(r)
+	case "corpus": // an unmodified corpus program under a PRNG-chosen environment
+		ci := r.Intn(len(corpus.progs))
+		prog = corpus.progs[ci]
+		v = uint64(prog[0])
+		mode = ModeSig
+		if corpus.app[ci] {
+			mode = ModeApp
+		}
 	case "mutation":
 		var base []byte
 		if r.Chance(1, 3) {
 			base = c31GenStructured(r, c31VersionPick(r), mode)
 		} else {
-			base = corpus.progs[r.Intn(len(corpus.progs))]
+			ci := r.Intn(len(corpus.progs))
+			base = corpus.progs[ci]
+			if r.Chance(4, 5) {
+				mode = ModeSig
+				if corpus.app[ci] {
+					mode = ModeApp
+				}
+			}
 		}
 		prog = c31Mutate(r, base, corpus.progs[r.Intn(len(corpus.progs))])
 		if len(prog) > 0 {
@@ -124,11 +154,15 @@ func c31OneCase(st *c31Stats, seed uint64, i uint64, before func(*c31Case)) (cs 
 	}
 	c31Mu.Unlock()
 	locked = false
-	args := c31Args(r)
-	cs = c31Case{Index: i, Class: class, Mode: mode.String(), Version: v, Program: hex.EncodeToString(prog), NArgs: len(args)}
-	for _, cp := range callees[1:] {
-		cs.Callees = append(cs.Callees, hex.EncodeToString(cp))
+	for ci := range callees {
+		// programs above the size limit of an installed app cost read budget before evaluation even
+		// starts; keep most callees installable
+		if len(callees[ci]) > 550 && !r.Chance(1, 10) {
+			callees[ci] = callees[0]
+		}
 	}
+	args := c31Args(r)
+	cs = c31Case{Index: i, Class: class, Mode: mode.String(), Version: v, NArgs: len(args), prog: prog, callees: callees[1:]}
 	if before != nil {
 		before(&cs)
 	}
@@ -156,6 +190,9 @@ func c31OneCase(st *c31Stats, seed uint64, i uint64, before func(*c31Case)) (cs 
 
 func c31Record(st *c31Stats, cs *c31Case, res *c31Result) {
 	st.Cases++
+	if c31Debug && cs.Class == "corpus" {
+		fmt.Printf("corpus case %d mode %s v%d len %d steps %d: %s\n", cs.Index, cs.Mode, cs.Version, len(cs.prog), res.steps, res.outcome)
+	}
 	kind := res.outcome
 	if strings.HasPrefix(kind, "error:") {
 		cls := kind[6:]
@@ -175,6 +212,7 @@ func c31Record(st *c31Stats, cs *c31Case, res *c31Result) {
 	}
 	st.max("max_steps_one_evaluation", int64(res.steps))
 	for _, v := range res.viol {
+		cs.hexify()
 		if len(st.Violations) < 12 {
 			st.Violations = append(st.Violations, c31Witness{Key: v.Key, Witness: map[string]any{"case": cs, "finding": v.Detail, "outcome": res.outcome,
 				"replay": "case index + seed regenerate the program; program_hex is the exact input"}})
@@ -182,7 +220,8 @@ func c31Record(st *c31Stats, cs *c31Case, res *c31Result) {
 			st.Counters["violations_not_listed"]++
 		}
 	}
-	if len(st.Samples) < 2 && res.steps > 60 && len(cs.Program) < 600 {
+	if len(st.Samples) < 2 && res.steps > 60 && len(cs.prog) < 300 {
+		cs.hexify()
 		st.Samples = append(st.Samples, map[string]any{"case": cs.Index, "class": cs.Class, "mode": cs.Mode, "version": cs.Version, "outcome": res.outcome, "steps": res.steps, "cost": res.cost, "program_hex": cs.Program})
 	}
 }
@@ -212,7 +251,7 @@ func TestVerifC31Worker(t *testing.T) {
 		}
 	}
 	only := os.Getenv("VERIF_C31_ONLY")
-	runtime.GOMAXPROCS(g)
+	runtime.GOMAXPROCS(g + 1)
 	debug.SetGCPercent(400)
 
 	stats := make([]*c31Stats, g)
@@ -230,9 +269,16 @@ func TestVerifC31Worker(t *testing.T) {
 			}
 			defer cur.Close()
 			before := func(cs *c31Case) {
-				b, _ := json.Marshal(cs)
-				cur.Truncate(0)
-				cur.WriteAt(b, 0)
+				// header line (JSON, without the programs) followed by the raw program bytes
+				hdr := fmt.Sprintf("{\"case\":%d,\"class\":%q,\"mode\":%q,\"version\":%d,\"args\":%d,\"lens\":[%d", cs.Index, cs.Class, cs.Mode, cs.Version, cs.NArgs, len(cs.prog))
+				for _, cp := range cs.callees {
+					hdr += fmt.Sprintf(",%d", len(cp))
+				}
+				buf := append([]byte(hdr+"]}\n"), cs.prog...)
+				for _, cp := range cs.callees {
+					buf = append(buf, cp...)
+				}
+				cur.WriteAt(buf, 0) // no truncation (metadata traffic): the header says how much is valid
 			}
 			if only != "" {
 				i, _ := strconv.ParseUint(only, 10, 64)
@@ -599,7 +645,20 @@ func c31CurrentCases(dir string, k uint64, g int) []c31Case {
 			continue
 		}
 		var cs c31Case
-		if json.Unmarshal(b, &cs) == nil {
+		hdr, rest, _ := strings.Cut(string(b), "\n")
+		if json.Unmarshal([]byte(hdr), &cs) == nil {
+			for li, l := range cs.Lens {
+				if l > len(rest) {
+					l = len(rest)
+				}
+				if li == 0 {
+					cs.prog = []byte(rest[:l])
+				} else {
+					cs.callees = append(cs.callees, []byte(rest[:l]))
+				}
+				rest = rest[l:]
+			}
+			cs.hexify()
 			out = append(out, cs)
 		}
 	}
